@@ -26,7 +26,7 @@ CLI = os.path.join(TARGET, "cli", "release", "rsjsonnet")
 EVIDENCE_DIR = os.path.join(VERIF, "evidence")
 REPLAY_DIR = os.path.join(EVIDENCE_DIR, "replay")
 SCRATCH = os.path.join(TARGET, "scratch")
-NPROC = min(16, os.cpu_count() or 1)
+NPROC = int(os.environ.get("VERIF_NPROC") or min(16, os.cpu_count() or 1))   # VERIF_NPROC: tools/psweep.py runs several checks side by side
 
 CARGO_ENV = dict(os.environ, CARGO_NET_OFFLINE="true")
 
